@@ -248,6 +248,24 @@ CLAIMED["C02"] = {
     "design": "DESIGN.md section 3 C02",
 }
 
+CLAIMED["C07"] = {
+    "text": "Bounded model checking of the real CursorAwareWindow.__enter__/render_to_terminal/__exit__ (with "
+            "get_cursor_position, scroll_down and the row cache) against a reference terminal model with scrollback: a "
+            "terminal that already holds output (0 or 2 scrollback lines, marker lines above the cursor on any row), enter, "
+            "one or two renders of arrays of height 0..h+2, leave. After EVERY render: the whole tape (scrollback + screen) "
+            "above the window's first row is unchanged, the array's rows follow it, everything below is blank, the model's "
+            "scroll counter grew by exactly the rows that did not fit, the return value is the number of array rows pushed "
+            "off the top, top_usable_row is updated consistently, the cursor is on the designated cell; after leaving, rows "
+            "above the cursor are unchanged, nothing below remains, the cursor is visible. Row characters are symbolic (the "
+            "cache comparison forks symbolically); shapes are enumerated by the solver; the second render starts from the "
+            "state the first left (inductive step).",
+    "note": "Trusted: CPython, CrossHair + z3, the terminal model (replays are judged by the pyte emulator on the real bytes), "
+            "C01 for row strings, real blessed strings, Cbreak stubbed (C12's subject). Rows wider than the terminal and "
+            "terminal resizes during the session are outside; sizes 2x2, 3x2 (thorough + 3x3, 4x2).",
+    "technique": TECH + "; terminal-model environment stub with scrollback, invariant asserted after every step",
+    "design": "DESIGN.md section 3 C07",
+}
+
 NOT_YET = {}
 
 ALL = ["C%02d" % i for i in range(1, 21)]
